@@ -131,6 +131,21 @@ def _e2p(run):
     return verdict, traces, bad, (t + 1, k + 1)
 
 
+def _e2pw(run):
+    """Trace_E2PW: a workbook replaced under its path, one Parser, executors from the written file / the returned text"""
+    from harness.props import e2pw, exec_common as xc
+    wbj = xc.spec_workbook(run)
+    traces = [e2pw.record(wbj, run.scratch, 'self', random.Random(s), 40) for s in (1, 2, 3)]
+    t, k = next((ti, ei) for ti, tr in enumerate(traces) for ei, e in enumerate(tr) if e['ev'] == 'text' and ei < len(tr) - 1)
+    bad = copy.deepcopy(traces)
+    bad[t][k]['ver'] = 3 - bad[t][k]['ver']          # the other version of the workbook
+
+    def verdict(trs):
+        rej = e2pw.validate(run, trs, 'self_E2PW')
+        return {(ti, v[0]) for ti, v in rej.items()}
+    return verdict, traces, bad, (t + 1, k + 1)
+
+
 def _c18(run):
     from harness.props import c18
     recs = [{'sheets': [{'title': 'First', 'cells': [{'c': 1, 'r': 1, 'k': 'int'}, {'c': 2, 'r': 3, 'k': 'text'}], 'size': {'cols': 2, 'rows': 3}}], 'chartAt': 0},
@@ -153,7 +168,7 @@ def _c19(run):
     return (lambda e: set(c19.validate(run, e, 'self_C19'))), evs, bad, k
 
 
-DEMOS = {'C04': _c04, 'E2P': _e2p, 'C18': _c18, 'C19': _c19, 'C02': _c02, 'C10': _c10, 'C11': _c11, 'C12': _c12, 'C13': _c13, 'C14': _c14, 'C15': _c15, 'C16': _c16, 'C17': _c17}
+DEMOS = {'C04': _c04, 'E2P': _e2p, 'E2PW': _e2pw, 'C18': _c18, 'C19': _c19, 'C02': _c02, 'C10': _c10, 'C11': _c11, 'C12': _c12, 'C13': _c13, 'C14': _c14, 'C15': _c15, 'C16': _c16, 'C17': _c17}
 
 
 def main(tier='quick', seed=0):
@@ -161,7 +176,7 @@ def main(tier='quick', seed=0):
     os.environ['VERIF_NO_EVIDENCE'] = '1'
     failed = 0
     for prop, demo in DEMOS.items():
-        run = core.Run('C04' if prop == 'E2P' else prop, 'quick', seed)
+        run = core.Run({'E2P': 'C04', 'E2PW': 'C09'}.get(prop, prop), 'quick', seed)
         try:
             verdict, evs, bad, k = demo(run)
             clean = verdict(evs)
